@@ -10,7 +10,7 @@ import ast
 from dataclasses import dataclass, field
 from typing import Dict, List, Optional, Tuple
 
-from .expr import C, FALSE, NONE, SELF, TRUE, _norm_node, is_const, is_num_const, norm, root_of, show, strip_epochs
+from .expr import C, FALSE, NONE, SELF, TRUE, _norm_node, is_const, is_num_const, mapx, norm, root_of, show, strip_epochs
 from .model import AnalysisError, ClassInfo, FuncInfo, ModuleInfo, Program, mangle
 
 BINOPS = {ast.Add: "+", ast.Sub: "-", ast.Mult: "*", ast.Div: "/", ast.FloorDiv: "//", ast.Mod: "%",
@@ -64,6 +64,15 @@ class Event:
         if k in ("return", "raise", "yield"):
             return f"{k} {show(self.value)}"
         return k
+
+
+def _calls_own_method(node) -> bool:
+    for x in ast.walk(node):
+        if isinstance(x, ast.Call) and isinstance(x.func, ast.Attribute):
+            v = x.func.value
+            if (isinstance(v, ast.Name) and v.id == "self") or (isinstance(v, ast.Call) and isinstance(v.func, ast.Name) and v.func.id == "super"):
+                return True
+    return False
 
 
 def _unroll_any_all(test, st):
@@ -436,8 +445,16 @@ class Walker:
         out = []
         # evaluate the exception *type* only; message construction is irrelevant and may contain f-strings
         exc = n.exc
+        factory = None
+        if isinstance(exc, ast.Call) and isinstance(exc.func, ast.Name) and exc.func.id not in st.env:
+            # raise make_error(...): a module-level function of the package that builds the exception - what is raised is what it returns
+            g = self.prog.functions.get(exc.func.id) if hasattr(self.prog, "functions") else None
+            if g is not None and g.cls is None:
+                rets = [x.value for x in ast.walk(g.node) if isinstance(x, ast.Return) and x.value is not None]
+                if len(rets) == 1 and isinstance(rets[0], ast.Call) and isinstance(rets[0].func, ast.Name):
+                    factory = rets[0].func.id
         if isinstance(exc, ast.Call):
-            nm = ast.unparse(exc.func)
+            nm = factory or ast.unparse(exc.func)
             pairs = self.ev_seq(exc.args, st)
             for s, vals in pairs:
                 v = ("call", ("g", nm), tuple(vals), ())
@@ -1165,6 +1182,9 @@ class Walker:
             return ("unp", cont[2][1], idx[1], ("chunk", cont[2][2], cont[1]))  # for a, b in S.iter_unpack(buf)
         if cont[0] == "comp" and cont[1] == "list" and len(cont[3]) == 1 and not cont[3][0][3] and cont[2][0] == "new":
             return cont[2]  # any element of a list of freshly constructed objects is that (abstract) object
+        tv = self._table_lookup(cont, idx, st)
+        if tv is not None:
+            return tv
         if idx == C(-1):
             hit = st.last.get((self.key_of(cont), strip_epochs(cont)))
             if hit is not None and hit[0] == self.epoch(st, cont):
@@ -1175,6 +1195,38 @@ class Walker:
         if idx[0] == "ix" and idx[2] == cont:
             return ("it", idx[1], cont)
         return ("sub", cont, idx, self.epoch(st, cont))
+
+    def _table_lookup(self, cont, idx, st: State):
+        """T[i] for a table T = tuple / list of (E(k) for k in range(N)) with constant N and an index known, from the conditions of the path,
+        to lie in [0, N): the entry is E(i).  (An index that may be negative counts from the end and is left alone.)"""
+        t = cont
+        while t[0] == "call" and t[1] in (("g", "tuple"), ("g", "list")) and len(t[2]) == 1 and not t[3]:
+            t = t[2][0]
+        if not (t[0] == "comp" and t[1] in ("list", "gen") and len(t[3]) == 1 and not t[3][0][3]):
+            return None
+        lid, dom = t[3][0][1], strip_epochs(t[3][0][2])
+        if not (dom[0] == "call" and dom[1] == ("g", "range") and len(dom[2]) == 1 and is_const(dom[2][0]) and isinstance(dom[2][0][1], int) and 0 < dom[2][0][1] <= 65536):
+            return None
+        n = dom[2][0][1]
+        if is_const(idx):
+            ok = isinstance(idx[1], int) and not isinstance(idx[1], bool) and 0 <= idx[1] < n
+        else:
+            from .intervals import EQ, GT, LT, path_orderings
+            atoms = []
+            for c in st.conds:
+                if c.atom[0] == "loop0" or _loop_stale(c, st):
+                    continue
+                a = strip_epochs(c.atom)
+                if not c.truth:
+                    a = _norm_node(("un", "not", a)) or ("un", "not", a)
+                atoms.append(a)
+            i0 = strip_epochs(idx)
+            ok = path_orderings(atoms, i0, C(0)) <= {EQ, GT} and path_orderings(atoms, i0, C(n)) <= {LT}
+        if not ok:
+            return None
+        var = ("it", lid, t[3][0][2])
+        from .expr import renorm
+        return renorm(mapx(t[2], lambda x: idx if strip_epochs(x) == strip_epochs(var) else None))
 
     def mk_bin(self, op, a, b):
         if op == "+" and a[0] == "tup" and b[0] == "tup":
@@ -1248,6 +1300,15 @@ class Walker:
 
     def e_IfExp(self, n, st):
         out = []
+        if _calls_own_method(n.body) or _calls_own_method(n.orelse):
+            # a branch that calls a method of the object (it may change state, and it is an event of the path) is taken or not taken:
+            # the conditional expression is a fork, exactly like the statement form
+            for s, truth in self.split(n.test, st):
+                if s.exit is not None:
+                    out.append((s, NONE))
+                    continue
+                out.extend(self.ev(n.body if truth else n.orelse, s))
+            return out
         for s, c in self.ev(n.test, st):
             c = self.decide(c, s)
             if is_const(c):
